@@ -785,6 +785,44 @@ Proof.
   apply (sp_find_run false (dead s') (hdead H') L' e a R' O' Le' Nr).
 Qed.
 
+(* the exact characterisation: a kill inside retention leaves the run map with SOME of the runs that are up for removal already removed
+   (each unlink is one primitive step) - and ALL queries answer as that intermediate run map says (P1-P4 for the surviving runs).
+   Full before-or-after atomicity is false here (ProofsC07Ex.retention_not_atomic). *)
+Theorem crash_removeold_full h H L d cutoff s' :
+  R2 h H L -> hist_okb H = true ->
+  In s' (scrash_states kname kpath h (ORemoveOld d cutoff)) ->
+  exists H', answers_as s' H' /\ hist_okb H' = true
+    /\ (forall a, In a (h_runs H') -> In a (h_runs H))
+    /\ (forall a, In a (h_runs H) -> ~ (a_dag a = d /\ (a_mtime a < cutoff)%Z) -> In a (h_runs H'))
+    /\ NoDup (map a_id (h_runs H')).
+Proof.
+  intros R O IN. unfold scrash_states in IN. simpl sprims in IN.
+  rewrite <- (map_map fst SUnlink) in IN.
+  set (ks := map fst (filter (fun e : sent => (mtime (snd e) <? cutoff)%Z) (sglob kname (sst h) d PAll))) in *.
+  pose proof (R2g_weaken h H L R) as RW.
+  assert (KS : forall k, In k ks -> exists e, In e (sfiles (sst h)) /\ fst e = k /\ k_dag k = d /\ (mtime (snd e) <? cutoff)%Z = true).
+  { intros k Ik. unfold ks in Ik. apply in_map_iff in Ik. destruct Ik as [e [Ee Ie]]. apply filter_In in Ie. destruct Ie as [Ig Old].
+    apply (sglob_member kname _ h H L d e R) in Ig. destruct Ig as [If Dg]. exists e. subst k. auto. }
+  assert (NDk : NoDup ks).
+  { unfold ks. apply (NoDup_map_filter fst).
+    apply (Permutation_NoDup (l := map fst (filter (fun e : sent => String.eqb (k_dag (fst e)) d && in_patk PAll (fst e)) (sfiles (sst h))))).
+    - apply Permutation_map, Permutation_sym, (sglob_perm kname _ h H L d PAll R).
+    - apply NoDup_map_filter. apply (r_keys _ _ _ _ R). }
+  destruct (crash_unlinks false ks (sst h) H L RW NDk) with (x := s') as [H' [L' [R' [S1 S2]]]]; auto.
+  { intros k Ik. destruct (KS k Ik) as [e [Ie [Ee _]]]. subst k. unfold keys. apply in_map. auto. }
+  assert (O' : hist_okb H' = true).
+  { apply hist_okb_iff. apply (hist_ok_sub H); auto. apply hist_okb_iff. exact O. }
+  exists H'. split; [apply (R2g_answers false s' H' L'); auto|]. split; auto. split; auto. split.
+  - intros a Ia NE. destruct (run_in_L h H L R a Ia) as [e Le].
+    assert (Le' : In (e, a) L').
+    { apply S2; auto. intro X. destruct (KS _ X) as [e2 [I2 [E2 [D2 Old]]]].
+      assert (e2 = e). { apply (NoDup_map_inj fst (sfiles (sst h))); auto. apply (r_keys _ _ _ _ R). apply (L_in_file h H L R (e, a)); auto. }
+      subst e2. pose proof (L_frun h H L R (e, a) Le) as [F1 [_ [_ [_ [_ [F6 _]]]]]]. simpl in *.
+      apply NE. split. congruence. rewrite <- (F6 eq_refl). apply Z.ltb_lt. exact Old. }
+    apply (L_in_run (dead s') (hdead H') L' R' (e, a) Le').
+  - apply (r_ids _ _ _ _ R').
+Qed.
+
 
 (* ---- rename: every prefix of the renames is related to a run map in which some runs of d already belong to d' ------------------- *)
 Definition mvd (d' : string) (x : sent * arun) : sent * arun := ((rekey d' (fst (fst x)), snd (fst x)), set_dag d' (snd x)).
@@ -948,23 +986,16 @@ Qed.
 
 (* P1 for rename: whatever prefix of the renames was executed, a run of another DAG is found intact, and a run of d is found
    intact under exactly one of the two names *)
-Theorem crash_rename h H L seen d d' s' :
+Lemma rename_related h H L seen d d' s' :
   R2 h H L -> hist_okb H = true -> incl (keys (sst h)) seen -> op_okb h seen (ORename d d') = true ->
-  hist_okb (sp_apply H (ORename d d')) = true ->
   In s' (scrash_states kname kpath h (ORename d d')) ->
-  forall a, In a (h_runs H) -> a_req a <> "" ->
-    (a_dag a <> d -> fres_payload (sq_find kname kpath s' (a_dag a) (a_req a)) = last_opt (a_sts a))
-    /\ (a_dag a = d ->
-         (fres_payload (sq_find kname kpath s' d (a_req a)) = last_opt (a_sts a) /\ fres_payload (sq_find kname kpath s' d' (a_req a)) = None)
-         \/ (fres_payload (sq_find kname kpath s' d (a_req a)) = None /\ fres_payload (sq_find kname kpath s' d' (a_req a)) = last_opt (a_sts a))).
+  exists L', R2g false (dead s') (hdead (H_of (h_next H) L')) L' /\ Forall2 (mrel d d') L L'.
 Proof.
-  intros R O IS P O' IN a Ia Nr.
+  intros R O IS P IN.
   simpl in P. apply andb_prop in P. destruct P as [P P3]. apply andb_prop in P. destruct P as [P1 _].
   apply negb_true_iff in P1. apply String.eqb_neq in P1.
   pose proof (R2g_weaken h H L R) as RW. pose proof (R2g_norm false (sst h) H L RW) as RN. simpl in RN.
-  (* the prefix state and its pairing *)
-  assert (EX : exists L', R2g false (dead s') (hdead (H_of (h_next H) L')) L' /\ Forall2 (mrel d d') L L').
-  { unfold scrash_states in IN. simpl sprims in IN. destruct (shas_dir (sst h) d) eqn:Dd.
+  unfold scrash_states in IN. simpl sprims in IN. destruct (shas_dir (sst h) d) eqn:Dd.
     2:{ simpl in IN. destruct IN as [IN|[]]. subst s'. exists L. split; auto. rewrite <- (map_id L) at 2. apply Forall2_map_r. intros; left; reflexivity. }
     set (G := sglob kname (sst h) d PAll) in *. set (ks := map fst G).
     assert (EQ : map (fun e : skey * file => SRename (fst e) (rekey d' (fst e))) G = map (fun k => SRename k (rekey d' k)) ks)
@@ -1034,7 +1065,25 @@ Proof.
       { simpl. rewrite EMP. reflexivity. }
       rewrite ST. constructor; simpl; try apply R'.
       intros e Ie. unfold shas_dir. simpl. rewrite existsb_filter_ne. fold (shas_dir s2 (k_dag (fst e))).
-      pose proof (r_dirs _ _ _ _ R' e Ie) as RD. simpl in RD. rewrite RD. simpl. apply negb_true_iff. apply String.eqb_neq. apply NOD; auto. }
+      pose proof (r_dirs _ _ _ _ R' e Ie) as RD. simpl in RD. rewrite RD. simpl. apply negb_true_iff. apply String.eqb_neq. apply NOD; auto.
+Qed.
+
+Theorem crash_rename h H L seen d d' s' :
+  R2 h H L -> hist_okb H = true -> incl (keys (sst h)) seen -> op_okb h seen (ORename d d') = true ->
+  hist_okb (sp_apply H (ORename d d')) = true ->
+  In s' (scrash_states kname kpath h (ORename d d')) ->
+  forall a, In a (h_runs H) -> a_req a <> "" ->
+    (a_dag a <> d -> fres_payload (sq_find kname kpath s' (a_dag a) (a_req a)) = last_opt (a_sts a))
+    /\ (a_dag a = d ->
+         (fres_payload (sq_find kname kpath s' d (a_req a)) = last_opt (a_sts a) /\ fres_payload (sq_find kname kpath s' d' (a_req a)) = None)
+         \/ (fres_payload (sq_find kname kpath s' d (a_req a)) = None /\ fres_payload (sq_find kname kpath s' d' (a_req a)) = last_opt (a_sts a))).
+Proof.
+  intros R O IS P O' IN a Ia Nr.
+  pose proof (rename_related h H L seen d d' s' R O IS P IN) as EX.
+  simpl in P. apply andb_prop in P. destruct P as [P P3]. apply andb_prop in P. destruct P as [P1 _].
+  apply negb_true_iff in P1. apply String.eqb_neq in P1.
+  pose proof (R2g_weaken h H L R) as RW. pose proof (R2g_norm false (sst h) H L RW) as RN. simpl in RN.
+  (* the prefix state and its pairing *)
   destruct EX as [L' [R' F']].
   assert (OK' : hist_okb (H_of (h_next H) L') = true).
   { apply hist_okb_iff. apply (mixed_hist_ok false (sst h) H L d d' (h_next H) L'); auto. }
@@ -1085,6 +1134,36 @@ Proof.
   - intros Dd. destruct Rx' as [Rx'|[Rx1 Rx2]].
     + subst x'. simpl in *. left. rewrite !FQ. rewrite <- Dd. split; [exact OWN|]. apply NONE; auto. rewrite Dd. auto.
     + subst x'. unfold mvd in *. simpl in *. right. rewrite !FQ. split; [|exact OWN]. apply NONE; auto.
+Qed.
+
+
+(* the exact characterisation: a kill inside Rename (one rename(2) per history file) leaves SOME of the runs of d already moved to d';
+   ALL queries - under the old name, the new name and every other DAG - answer as that intermediate run map says: every run is found
+   under exactly one of the two names, and latest / recent of each name list the runs that are currently there.
+   Full before-or-after atomicity is false here (ProofsC07Ex.rename_not_atomic). *)
+Lemma Forall2_map_in {A B A' B'} (P : A -> B -> Prop) (Q : A' -> B' -> Prop) (f : A -> A') (g : B -> B') l l' :
+  Forall2 P l l' -> (forall x y, In x l -> P x y -> Q (f x) (g y)) -> Forall2 Q (map f l) (map g l').
+Proof. induction 1; simpl; intros Hq; constructor; auto. Qed.
+Definition rrel (d d' : string) (a a' : arun) : Prop := a' = a \/ (a_dag a = d /\ a' = set_dag d' a).
+Theorem crash_rename_full h H L seen d d' s' :
+  R2 h H L -> hist_okb H = true -> incl (keys (sst h)) seen -> op_okb h seen (ORename d d') = true ->
+  hist_okb (sp_apply H (ORename d d')) = true ->
+  In s' (scrash_states kname kpath h (ORename d d')) ->
+  exists H', answers_as s' H' /\ hist_okb H' = true
+    /\ exists l, Permutation l (h_runs H) /\ Forall2 (rrel d d') l (h_runs H').
+Proof.
+  intros R O IS P O' IN.
+  destruct (rename_related h H L seen d d' s' R O IS P IN) as [L' [R' F']].
+  simpl in P. apply andb_prop in P. destruct P as [P P3]. apply andb_prop in P. destruct P as [P1 _].
+  apply negb_true_iff in P1. apply String.eqb_neq in P1.
+  pose proof (R2g_weaken h H L R) as RW.
+  assert (OK' : hist_okb (H_of (h_next H) L') = true).
+  { apply hist_okb_iff. apply (mixed_hist_ok false (sst h) H L d d' (h_next H) L'); auto. }
+  exists (H_of (h_next H) L'). split; [apply (R2g_answers false s' _ L'); auto|]. split; auto.
+  exists (map snd L). split; [apply (r_snd _ _ _ _ R)|]. simpl.
+  apply (Forall2_map_in (mrel d d') (rrel d d') snd snd L L'); auto.
+  intros x x' Ix Rx. destruct Rx as [Rx|[Dx Rx]]; subst x'; [left; reflexivity|]. right. unfold mvd. simpl. split; [|reflexivity].
+  pose proof (L_frun h H L R x Ix) as [Fd _]. congruence.
 Qed.
 
 End K.
